@@ -131,6 +131,50 @@ def main(run, args):
                 {"op": "observe", "who": "B", "observe": "all"}]
         scripts.append({"name": f"c06-flight-{i}", "suite": 1, "members": members, "ops": ops})
         marks.append(mk)
+    # directed: late messages of SEVERAL stored past epochs are read in an order that goes back and forth
+    # between the epochs, then the state is written and loaded: what was read stays read (a replay is
+    # refused by the loaded group exactly as by the saved one), what was not read is still readable
+    expect_fail = {}
+    for i in range(6 if quick else 40):
+        storage = ["mem", "sqlite"][i % 2]
+        members = [{"name": n, "storage": storage, "retention": 5} for n in "ABC"]
+        ops = [{"op": "create", "who": "A"}, {"op": "kp", "who": "B", "id": "kB"}, {"op": "kp", "who": "C", "id": "kC"},
+               {"op": "commit", "who": "A", "id": "c0", "add": ["kB", "kC"]}, {"op": "apply", "who": "A"},
+               {"op": "join", "who": "B", "welcome_any": "c0"}, {"op": "join", "who": "C", "welcome_any": "c0"}]
+        n_ep = 3 + rng.below(2)
+        msgs = []
+        for e in range(1, n_ep + 1):
+            for x in "ab":
+                ops.append({"op": "app", "who": "B", "id": f"m{e}{x}", "data": "%02x" % e})
+                msgs.append((f"m{e}{x}", e))
+            ops += [{"op": "opts", "who": "A", "path_required": True}, {"op": "commit", "who": "A", "id": f"c{e}"}, {"op": "apply", "who": "A"},
+                    {"op": "deliver", "to": "B", "msg": f"c{e}"}, {"op": "deliver", "to": "C", "msg": f"c{e}"}]
+        ops.append({"op": "save", "who": "C"})
+        # newer, older, newer again (and a random tail)
+        e_hi, e_lo = rng.shuffle(list(range(1, n_ep + 1)))[:2]
+        e_hi, e_lo = max(e_hi, e_lo), min(e_hi, e_lo)
+        order = [f"m{e_hi}a", f"m{e_lo}a", f"m{e_hi}b"] + [m for m, _ in rng.shuffle(msgs) if m not in (f"m{e_hi}a", f"m{e_lo}a", f"m{e_hi}b")][:rng.below(3)]
+        for m in order:
+            ops.append({"op": "deliver", "to": "C", "msg": m})
+        mk = []
+        ops.append({"op": "save", "who": "C"})
+        ops.append({"op": "observe", "who": "C", "observe": "C"})
+        a = len(ops) - 1
+        ops.append({"op": "load", "who": "C"})
+        ops.append({"op": "observe", "who": "C", "observe": "C"})
+        mk.append(("reload_after_late_messages", "C", a, len(ops) - 1))
+        fails = set()
+        for m in rng.shuffle(order):
+            ops.append({"op": "deliver", "to": "C", "msg": m})
+            fails.add(len(ops) - 1)
+        for m, _ in msgs:
+            if m not in order:
+                ops.append({"op": "deliver", "to": "C", "msg": m})
+        ops += [{"op": "commit", "who": "C", "id": "cz"}, {"op": "deliver", "to": "A", "msg": "cz"}, {"op": "deliver", "to": "B", "msg": "cz"}, {"op": "apply", "who": "C"},
+                {"op": "observe", "who": "C", "observe": "all"}]
+        expect_fail[f"c06-late-{i}"] = fails
+        scripts.append({"name": f"c06-late-{i}", "suite": 1, "members": members, "ops": ops})
+        marks.append(mk)
     recs = run_scripts(scripts, timeout=1500)
     failing = []
     n_checks = 0
@@ -140,7 +184,11 @@ def main(run, args):
             failing.append({"what": "history interpreter crashed", "script": sc["name"]})
             continue
         byi = {r["i"]: r for r in rs if "i" in r}
-        bad = [r for r in rs if r.get("ok") is False]
+        xf = expect_fail.get(sc["name"], set())
+        for k in sorted(xf):
+            if byi.get(k, {}).get("ok") is not False:
+                failing.append({"what": "after the reload a message that had been read BEFORE the write is accepted again (the written state lost its consumption)", "script": sc["name"], "op": sc["ops"][k], "ops": sc["ops"][max(0, k - 12):k + 1]})
+        bad = [r for r in rs if r.get("ok") is False and r["i"] not in xf]
         if bad:
             failing.append({"what": "operation failed in a history with reloads (reloaded member out of step?)", "script": sc["name"], "record": bad[0], "ops": sc["ops"][max(0, bad[0]["i"] - 6):bad[0]["i"] + 1]})
             continue
@@ -182,7 +230,7 @@ def main(run, args):
     run.cov.update({
         "evaluations": n_checks,
         "distinct_nontrivial": n_checks,
-        "rule": "generated histories (5 members, 3-6 epochs, adds/removes/updates, both providers, retention 1 or 3) with save+reload inserted after random rounds (plain, with cached proposals and own pending updates, with a pending commit) and a final crash point (save, one more unsaved epoch, reload); one check = one save/reload pair, every field of the observation compared.",
+        "rule": "generated histories (5 members, 3-6 epochs, adds/removes/updates, both providers, retention 1 or 3) with save+reload inserted after random rounds (plain, with cached proposals and own pending updates, with a pending commit) and a final crash point (save, one more unsaved epoch, reload); late messages of several stored epochs read back and forth, then save + reload, replays refused and unread messages readable; one check = one save/reload pair, every field of the observation compared.",
         "samples": [{"script": scripts[0]["name"], "marks": marks[0]}],
         "mark_kinds": kinds,
         "histories": len(scripts),
